@@ -127,6 +127,7 @@ def run(prop, tier, seed, work):
         batches.append(run_pairs(prop, tier, seed, work, res, defs, pairs, per, two_hop=(prop == "C11")))
         if prop == "C11":
             pairs_mc(work, res, defs, pairs, quick)
+            batches.append(holder_history_batch(prop, work, res, quick))
         if not quick:
             # further rounds: other retype choices, other value samples, other order / trail / destination assignments
             for r in range(1, 4):
@@ -143,6 +144,56 @@ def run(prop, tier, seed, work):
     return suite.finish(res, RULES[prop], ASSUME)
 
 
+def holder_history_batch(prop, work, res, quick):
+    """holder contents after decodes that failed once unknown fields had been recorded (missing required field, truncation):
+    the next holder holds exactly the unknown fields of ITS message"""
+    T, L, M, ST, field, struct = U.T, U.L, U.M, U.ST, U.field, U.struct
+    defs = U.leaf_structs()
+    defs["HReq"] = struct([field(3, "required", T("i32")), field(5, "default", T("string"))], unk=True)
+    defs["HReqN"] = struct([field(1, "default", L(ST("HReq", True))), field(2, "default", M(T("string"), ST("HReq", False))), field(4, "default", T("i32"))], unk=True)
+    defs["WH"] = struct([field(1, "default", T("string")), field(2, "default", T("i64")), field(3, "optional", T("i32", True)), field(5, "default", T("string")),
+                         field(7, "default", L(T("i16"))), field(9, "optional", T("string", True))])
+    defs["WHN"] = struct([field(1, "default", L(ST("WH", True))), field(2, "default", M(T("string"), ST("WH", False))), field(4, "default", T("i32")),
+                          field(6, "default", T("string")), field(8, "default", T("double"))])
+    U.with_defaults(defs)
+    defs_path = vlib.write_defs(work, defs)
+    wh = lambda a, req=True, tail=True: {"f": {"1": list(("u%d" % a).encode()) * (1 + a % 3), "2": U.be(a, 8), "3": {"p": 1, "v": U.be(a, 4)} if req else {"p": 0},
+                                               "5": list(b"known"), "7": {"nil": False, "items": [U.be(a + j, 2) for j in range(a % 4)]},
+                                               "9": {"p": 1, "v": list(b"tail%d" % a)} if tail else {"p": 0}}, "unk": []}
+    whn = lambda items, ents: {"f": {"1": {"nil": False, "items": [{"p": 1, "v": x} for x in items]}, "2": {"nil": False, "ents": [[list(("k%d" % j).encode()), x] for j, x in enumerate(ents)]},
+                                     "4": U.be(4, 4), "6": list(b"top-unknown"), "8": [64, 9, 33, 251, 84, 68, 45, 24]}, "unk": []}
+    cases = []
+    for o in ORDS:
+        cases.append({"cid": "good|%s" % o, "w": "WH", "val": wh(1), "ord": o, "trail": [], "mut": "none"})
+        cases.append({"cid": "good2|%s" % o, "w": "WH", "val": wh(6, tail=False), "ord": o, "trail": [], "mut": "none"})
+        cases.append({"cid": "miss|%s" % o, "w": "WH", "val": wh(3, req=False), "ord": o, "trail": [], "mut": "none"})
+        cases.append({"cid": "ngood|%s" % o, "w": "WHN", "val": whn([wh(1), wh(2, tail=False)], [wh(5)]), "ord": o, "trail": [], "mut": "none"})
+        cases.append({"cid": "nmiss|%s" % o, "w": "WHN", "val": whn([wh(1), wh(2, req=False)], [wh(5), wh(7, req=False)]), "ord": o, "trail": [], "mut": "none"})
+    cases.append({"cid": "cut", "w": "WH", "val": wh(2), "ord": "asc", "trail": [], "mut": "prefix"})
+    cases.append({"cid": "ncut", "w": "WHN", "val": whn([wh(1)], [wh(3)]), "ord": "desc", "trail": [], "mut": "prefix"})
+    msgs, st = vlib.gen_messages(work, defs_path, cases)
+    res.tlc_states += st.get("distinct", 0)
+    res.tlc_transitions += st.get("generated", 0)
+    scen = []
+    for top, good, bads in (("HReq", ["good", "good2"], ["miss"]), ("HReqN", ["ngood"], ["nmiss"])):
+        fails = [msgs["%s|%s" % (b, o)][0] for b in bads for o in ORDS] + msgs["cut" if top == "HReq" else "ncut"][:: (3 if quick else 1)]
+        goods = [msgs["%s|%s" % (g, o)][0] for g in good for o in ORDS]
+        steps = []
+        for i, bad in enumerate(fails):
+            steps.append({"op": "decode", "ty": top, "in": bad, "dest": "fresh"})
+            steps.append({"op": "decode", "ty": top, "in": goods[i % len(goods)], "dest": "fresh"})
+            # the holder is part of what gets encoded again
+            steps.append({"op": "size", "ty": top, "obj": len(steps) - 1})
+            if len(steps) >= 90:
+                sid = "C11-failfirst-%s-%d" % (top, len(scen))
+                scen.append({"sid": sid, "prop": prop, "vals": [], "steps": steps, "tags": ["holder-after-failure"], "dkey": sid})
+                steps = []
+        if steps:
+            sid = "C11-failfirst-%s-%d" % (top, len(scen))
+            scen.append({"sid": sid, "prop": prop, "vals": [], "steps": steps, "tags": ["holder-after-failure"], "dkey": sid})
+    return Batch("holder-history", defs, scen)
+
+
 def pairs_mc(work, res, defs, pairs, quick):
     """spec/PairsMC.tla: the two-hop theorem of the reference semantics on the schema pairs (values enumerated in TLA+)"""
     import json
@@ -151,7 +202,23 @@ def pairs_mc(work, res, defs, pairs, quick):
     d = work.sub("pairsmc")
     pp = os.path.join(d, "pairs.json")
     json.dump([[w, t] for (w, t) in sel], open(pp, "w"))
-    defs_path = vlib.write_defs(work, defs)
+    # only the structs the selected pairs reach (the universe also holds very wide structs that would be evaluated for nothing)
+    need, todo = set(), [x for p in sel for x in p]
+    while todo:
+        x = todo.pop()
+        if x in need:
+            continue
+        need.add(x)
+
+        def refs(t):
+            if t.get("k") == "struct":
+                todo.append(t["s"])
+            for kk in ("e", "kt", "vt"):
+                if kk in t:
+                    refs(t[kk])
+        for f in defs[x]["fields"]:
+            refs(f["t"])
+    defs_path = vlib.write_defs(work, {k: v for k, v in defs.items() if k in need})
     out, st = vlib.tlc(d, "PairsMC", "INIT PInit\nNEXT PNext\nINVARIANT Forward\nINVARIANT TwoHop\nCHECK_DEADLOCK FALSE\n",
                        env={"VERIF_DEFS": defs_path, "VERIF_PAIRS": pp}, workers=8, timeout=3000, heap="8g")
     if st.get("exit") != 0 or "No error has been found" not in out:
